@@ -291,6 +291,10 @@ func genCaseC14(t *rapid.T) *c14Case {
 			valid = docs[next]
 		}
 		valid += touchContent(t, loadedModel(), n, lab+"touch")
+		if s.Roots == nil && s.Type("Mutation") == nil && next > 0 && rapid.IntRange(0, 2).Draw(t, lab+"extSchema") == 0 {
+			// an extension of the implicit schema (it would give the root a mutation type)
+			valid += fmt.Sprintf("type ZqMut%d { a: Int }\nextend schema { mutation: ZqMut%d }\n", n, n)
+		}
 		ex := existing()
 		some := "Query"
 		if len(ex) > 0 {
